@@ -67,10 +67,18 @@ pub fn ints_boundary(thorough: bool) -> Vec<i32> {
 }
 pub fn floats_boundary(thorough: bool) -> Vec<f32> {
     let mut v = vec![f32::NEG_INFINITY, f32::MIN, -2.5, -1.0, -0.0, 0.0, f32::MIN_POSITIVE, 0.5, 1.0, 2.5, f32::MAX, f32::INFINITY, f32::NAN];
+    v.extend(near_floats().into_iter().filter(|x| *x != 1.0));
+    // subnormals (non-zero, below MIN_POSITIVE)
+    v.extend([1e-40, -1e-40]);
     if thorough {
         v.extend([0.0004, 1e10, -0.5, 3.0e9, -3.0e9, 1e-45, -1e-45, 16_777_216.0, 2_147_483_648.0, -2_147_483_904.0, 0.1, 3.1415927, 1e38, -1e-38, 2_147_483_520.0, 0.99999994]);
     }
     v
+}
+/// pairs of floats that a tolerant or textual comparison would merge: one ulp apart (also two distinct
+/// whole numbers), equal to three decimals (the `{:.3}` print), equal to one decimal (the `{:.1}` print)
+pub fn near_floats() -> Vec<f32> {
+    vec![1.0, f32::from_bits(1.0f32.to_bits() + 1), 1.0001, 1.0004, 1.04, 16_777_216.0, 16_777_218.0, 0.7, f32::from_bits(0.7f32.to_bits() + 1)]
 }
 pub fn names() -> Vec<String> {
     // short names, and long ones that differ only in their tail / in one inner byte (word-wise comparisons)
@@ -121,6 +129,13 @@ pub fn ivs_pool(maxlen: usize) -> Vec<Vec<i32>> {
 }
 pub fn fvs_pool(maxlen: usize) -> Vec<Vec<f32>> {
     let mut out: Vec<Vec<f32>> = vec![vec![]];
+    if maxlen >= 2 {
+        let n = near_floats();
+        out.push(vec![n[0], n[1]]);
+        out.push(vec![n[3], n[2]]);
+        out.push(vec![1e-40, 4.0]);
+        out.push(vec![2.0, -1e-40]);
+    }
     for len in 1..=maxlen {
         out.push((0..len).map(|k| 1.5 + k as f32).collect());
         out.push((0..len).map(|k| if k % 2 == 0 { f32::INFINITY } else { f32::NAN }).collect());
@@ -181,7 +196,7 @@ impl Alpha {
             bools: vec![true, false],
             ints: vec![IMIN, -1, 0, 1, 2, IMAX],
             floats: vec![-1.0, 0.0, 0.5, f32::INFINITY, f32::NAN],
-            names: vec!["A".to_string(), "true".to_string()],
+            names: vec!["A".to_string(), "true".to_string(), "B".to_string()],
             codes: vec![Tree::I(1), Tree::L(vec![]), Tree::L(vec![Tree::L(vec![Tree::I(1)]), Tree::F(1.5), Tree::B(true)])],
             bvs: vec![vec![], vec![true], vec![false, true, true]],
             ivs: vec![vec![], vec![1], vec![2, 1, 0], vec![IMAX, IMIN], vec![0, 3]],
@@ -237,6 +252,21 @@ impl Alpha {
             graphs: vec![graph_small(), graph_large()],
             deep: false,
         }
+    }
+}
+
+impl Alpha {
+    /// the large-instance alphabet with fewer values per kind, for instructions with many operands
+    pub fn large_reduced() -> Alpha {
+        let mut a = Alpha::large();
+        a.ints = vec![IMIN, -1, 0, 10, 33, IMAX];
+        a.floats = vec![0.5, f32::NAN];
+        a.names.truncate(1);
+        a.codes.truncate(2);
+        a.bvs.truncate(1);
+        a.ivs.truncate(1);
+        a.fvs.truncate(2);
+        a
     }
 }
 
